@@ -71,6 +71,30 @@ def gen_case(rng):
         lines.append("DUMP x y z p q a")
     return lines, (ncalls >= 2 or rebound)
 
+def nested_cases(rng):
+    """closures created inside the body of another closure, with the captured variable changing afterwards"""
+    out = []
+    v = rng.choice(["x", "y"])
+    init = rng.choice(["1", "10"])
+    # an outer closure that bumps its captured variable and returns an inner closure reading it
+    mk = "(setq mk (let ((%s %s)) (lambda () (setq %s (+ %s 1)) (lambda () %s))))" % (v, init, v, v, v)
+    out.append(["NEW", "EVAL " + mk, "EVAL (setq r1 (funcall mk))", "EVAL (setq r2 (funcall mk))",
+                "EVAL (list (funcall r1) (funcall r2) (funcall r1))", "DUMP x y"])
+    # sibling inner closures from one outer closure: a setter and a getter
+    mk2 = "(setq mk2 (let ((%s %s)) (lambda () (list (lambda (nv) (setq %s nv)) (lambda () %s)))))" % (v, init, v, v)
+    out.append(["NEW", "EVAL " + mk2, "EVAL (setq pair (funcall mk2))", "EVAL (funcall (car pair) 77)",
+                "EVAL (funcall (car (cdr pair)))", "EVAL (setq pair2 (funcall mk2))", "EVAL (funcall (car (cdr pair2)))", "DUMP x y"])
+    # counters made by a factory called twice
+    mk3 = "(defun make-counter () (let ((%s 0)) (lambda () (setq %s (+ %s 1)) %s)))" % (v, v, v, v)
+    out.append(["NEW", "EVAL " + mk3, "EVAL (setq c1 (make-counter))", "EVAL (setq c2 (make-counter))",
+                "EVAL (list (funcall c1) (funcall c1) (funcall c2) (funcall c1) (funcall c2))", "DUMP x y"])
+    # inner closure created under a let inside the outer closure's body, outer variable assigned later
+    mk4 = ("(setq mk4 (let ((%s %s)) (lambda (k) (let ((inner (lambda () (list %s k)))) (setq %s (+ %s k)) (list inner (funcall inner))))))"
+           % (v, init, v, v, v))
+    out.append(["NEW", "EVAL " + mk4, "EVAL (setq p1 (funcall mk4 5))", "EVAL (setq p2 (funcall mk4 7))",
+                "EVAL (list (funcall (car p1)) (funcall (car p2)) (car (cdr p1)) (car (cdr p2)))", "DUMP x y"])
+    return out
+
 def generate(tier, seed):
     rng = C.rng_for(seed, "C05")
     n = 4000 if tier == "quick" else 100000
@@ -81,4 +105,9 @@ def generate(tier, seed):
         lines += l
         if f and tuple(l) not in seen:
             seen.add(tuple(l)); nt += 1
+    for _ in range(10 if tier == "quick" else 200):
+        for c in nested_cases(rng):
+            lines += c
+            if tuple(c) not in seen:
+                seen.add(tuple(c)); nt += 1
     return {"lines": lines, "nontrivial": nt, "distribution": {"cases": n}}
